@@ -496,7 +496,13 @@ def check_recurse_driver(ctx, rid):
                f'the pass is only applied when {extra}')
     ctx.ob(rid, 'recurse:no-raise', _loc(inner, raises[0] if raises else inner.node), 'the @recurse driver has no failure exit of its own', not raises,
            'the driver raises: grouping of a valid statement depends on its size/depth')
-    # get_sublists yields every group child
+    check_get_sublists(ctx, rid)
+
+
+def check_get_sublists(ctx, rid):
+    """TokenList.get_sublists is what every recursive walker (the @recurse grouping passes, the statement filters) uses to
+    descend: it must yield every child that is a group."""
+    repo = ctx.repo
     gs = repo.funcs.get('sqlparse.sql.TokenList.get_sublists')
     ctx.need(gs is not None, 'TokenList.get_sublists not found')
     g2 = Guards(gs.node)
@@ -506,6 +512,27 @@ def check_recurse_driver(ctx, rid):
         extra = [f'`{e}` is {p}' for e, p in g2.facts(y) if not (e.endswith('.is_group') and p is True)]
         ctx.ob(rid, 'get_sublists', _loc(gs, y), 'get_sublists yields every child that is a group', not extra,
                f'a group child is only yielded when {extra}')
+
+
+def check_filter_descends(ctx, rid, cls, method='process'):
+    """A statement filter that has to reach every token of its kind walks the whole tree: its entry method calls itself for
+    every element of <list>.get_sublists(), unconditionally."""
+    f = ctx.repo.funcs.get(f'{cls.qname}.{method}')
+    ctx.need(f is not None, f'{cls.name}.{method} not found')
+    gd = Guards(f.node)
+    found = []
+    for n in own_nodes(f.node):
+        if isinstance(n, (ast.For, ast.comprehension)) and any(isinstance(c, ast.Call) and isinstance(c.func, ast.Attribute) and c.func.attr == 'get_sublists'
+                                                               for c in ast.walk(n.iter)):
+            found.append(n)
+    ctx.ob(rid, f'{cls.name}.{method}:descends', _loc(f, f.node), f'{cls.name}.{method} iterates over get_sublists() of the list it is given',
+           bool(found), 'no loop over get_sublists(): tokens nested in groups (parentheses, functions, identifier lists) are never visited')
+    for lp in found:
+        facts = [x for x in (gd.facts(lp) if isinstance(lp, ast.For) else []) if x[0] != '|']
+        conds = [src(c) for c in lp.ifs] if isinstance(lp, ast.comprehension) else []
+        ctx.ob(rid, f'{cls.name}.{method}:unconditional', _loc(f, lp if isinstance(lp, ast.For) else lp.iter),
+               'the descent is not restricted by a condition', not facts and not conds, f'guards {facts} / filters {conds}')
+    check_get_sublists(ctx, rid)
 
 
 # ---------------------------------------------------------------------------
